@@ -164,6 +164,9 @@ func c20Pairs() []c20Pair {
 		{"same-filter-different-types", c20Inst{"SELECT v FROM stream WHERE v > 1", num}, c20Inst{"SELECT v FROM stream WHERE v > 1", strs}},
 		{"analytic-same-sql", c20Inst{"SELECT k, lag(v) OVER (PARTITION BY k) AS p, acc_sum(v) OVER (PARTITION BY k) AS s FROM stream", num}, c20Inst{"SELECT k, lag(v) OVER (PARTITION BY k) AS p, acc_sum(v) OVER (PARTITION BY k) AS s FROM stream", num}},
 		{"percentile-params", c20Inst{"SELECT percentile(v, 0) AS p FROM stream GROUP BY CountingWindow(2)", num}, c20Inst{"SELECT percentile(v, 1) AS p FROM stream GROUP BY CountingWindow(2)", num}},
+		// an explicit parameter in one instance, the default parameter in the other (shared registry prototypes)
+		{"percentile-explicit-vs-default", c20Inst{"SELECT percentile(v, 0) AS p FROM stream GROUP BY CountingWindow(2)", num}, c20Inst{"SELECT percentile(v) AS p FROM stream GROUP BY CountingWindow(2)", num}},
+		{"nth-value-explicit-vs-default", c20Inst{"SELECT k, nth_value(v, 2) AS n FROM stream GROUP BY k, CountingWindow(2)", num}, c20Inst{"SELECT k, nth_value(v) AS n FROM stream GROUP BY k, CountingWindow(2)", num}},
 		{"like-vs-like", c20Inst{"SELECT v FROM stream WHERE v LIKE 'x%'", strs}, c20Inst{"SELECT v FROM stream WHERE v LIKE '%y'", strs}},
 		{"literal-differs-only-in-letter-case", c20Inst{"SELECT concat(k, '-ok') AS r, upper(k) AS u FROM stream", strs}, c20Inst{"SELECT concat(k, '-OK') AS r, UPPER(k) AS u FROM stream", strs}},
 		// MATCH_RECOGNIZE evaluates DEFINE/MEASURES through a process-wide sync.Pool of scratch maps
@@ -312,7 +315,7 @@ func (c20) Run(u fw.Unit) fw.Result {
 func (c20) Describe(tier string) fw.Description {
 	return fw.Description{
 		Level: "model_checking",
-		Rule: "(a) immutability: 17 query kinds (unnest over scalars and over objects, projection, *, SELECT-analytic, WHERE-analytic with and without OVER, OVER, changed_cols, JOIN, function-expression group key, counting, tumbling, session, global window, MATCH_RECOGNIZE, CASE) x {Emit, EmitSync} x rows with nested maps and slices: a deep snapshot of every caller map before the call must equal it after quiescence, and every batch handed to a sink must still read the same at the end; (b) independence: 12 instance pairs (same SQL; nth_value(v,1) vs (v,2); percentile(v,0) vs (v,1); the same expression text over differently typed rows; analytic; LIKE; CASE vs string concatenation) x all input sequences of length 1..L per instance x ALL interleavings of the two inputs at operation granularity in one process, compared with each instance alone after VerifResetGlobals(); non-trivial = some output exists",
+		Rule: "(a) immutability: 17 query kinds (unnest over scalars and over objects, projection, *, SELECT-analytic, WHERE-analytic with and without OVER, OVER, changed_cols, JOIN, function-expression group key, counting, tumbling, session, global window, MATCH_RECOGNIZE, CASE) x {Emit, EmitSync} x rows with nested maps and slices: a deep snapshot of every caller map before the call must equal it after quiescence, and every batch handed to a sink must still read the same at the end; (b) independence: 14 instance pairs (same SQL; nth_value(v,1) vs (v,2); percentile(v,0) vs (v,1); the same expression text over differently typed rows; analytic; LIKE; CASE vs string concatenation) x all input sequences of length 1..L per instance x ALL interleavings of the two inputs at operation granularity in one process, compared with each instance alone after VerifResetGlobals(); non-trivial = some output exists",
 		Bounds:      map[string]any{"max_len_per_instance": map[string]int{"quick": 2, "thorough": 3}},
 		Assumptions: []string{"interleaving at Emit granularity under the eager deterministic schedule; finer interleavings of two instances' goroutines are not explored (they share only the function registry and the expression caches, whose internal synchronisation is in the quiet packages)"},
 	}
